@@ -71,6 +71,8 @@ else:
     finally:
         sh("git -C /repo checkout -- .")
         print("repo restored:", sh("git -C /repo status --short")[1].strip() or "clean")
+        # the harness binary in .cache was built from the changed tree: rebuild it from the restored one
+        sh("python3 -c \"import sys; sys.path.insert(0, 'tools'); import vlib; vlib.build_harness()\"", cwd=V)
 meta["detected_by"] = [r["check"] for r in meta["ran"] if r["rc"] == 1]
 meta.update({k: v for k, v in KEEP.items() if k not in meta})
 json.dump(meta, open(os.path.join(dst, "meta.json"), "w"), indent=1)
